@@ -108,48 +108,61 @@ for _b, _l in sorted(CONV_PAIRS.items()):
     for _nb in _l:
         PAIRS_BY_CLASS.setdefault(pair_class(_b, _nb), []).append((_b, _nb))
 
-LEVEL_TEXT = ("Coq theorems for all inputs: (1) the as-is model of the float parser (Repr::from_str_native transcribed on byte lists: sign, rfind of "
+LEVEL_TEXT = ("Coq theorems for all inputs (58 pinned): (1) the as-is model of the float parser (Repr::from_str_native transcribed on byte lists: sign, rfind of "
               "the scale marker, isize scale, point, hexadecimal form, digit counting, final normalisation; UBig::from_str_radix at its C07 "
               "specification) returns exactly the written value and the number of written digits on every text the documented grammar accepts "
-              "(parse_spec = the grammar read left to right), and accepts nothing else: parse_asis = Ok v <-> parse_spec = Some v for every byte string; (2) the as-is model of Display (fmt_round: rounding by round_fract, digit string, "
+              "(parse_spec = the grammar read left to right), and accepts nothing else: parse_asis = Ok v <-> parse_spec = Some v for every byte string and every base 2..36; "
+              "FromStr for FBig = from_str_native with the regenerated context rule (C08_fbig_from_str_iff); (2) the as-is model of Display (fmt_round: rounding by round_fract, digit string, "
               "cut at the point, zero filling) and of LowerExp/UpperExp (fmt_round_scientific incl. the renormalised carry) print exactly the "
-              "specified text, whose rounding is spec_round (T_round over the regenerated tables); (3) printing without options and parsing the text gives the same normalised float back, on the specification and on the "
+              "specified text, whose rounding is spec_round (T_round over the regenerated tables) - since round 3 the WHOLE text: the width the code computes from the parts it prints equals "
+              "the length of sign + body and the padding is pad_spec (core::fmt's convention) for every width, fill, alignment, sign and zero flag (C08_display_full_text_asis_spec, "
+              "C08_sci_full_text_asis_spec; true after the repair F08); (3) printing without options and parsing the text gives the same normalised float back, on the specification and on the "
               "as-is models; (4) with_precision (as-is) = specification, which errs by less than one unit of the last kept digit, at most half "
-              "in the nearest modes, on the side of the mode, with a truthful Exact/Inexact flag and p digits; (5) the modelled routes of "
-              "convert_base (same base, power-related bases, exact power for 0 <= e <= 38, exact long division) return the specification "
-              "rounding of the exact value; the precision rule NewB^p' <= B^p < NewB^(p'+1); ilog_exact. Every implementation answer of all "
+              "in the nearest modes, on the side of the mode, with a truthful Exact/Inexact flag and p digits; (5) the routes of "
+              "convert_base without logarithm (same base, power-related bases, exact power for 0 <= e <= 38, exact long division) return the specification "
+              "rounding of the exact value; the precision rule NewB^p' <= B^p < NewB^(p'+1); ilog_exact; (6) round 3, the ln/exp route AS IT IS (Float/LargeExpAsis.v: the code transcribed on the C11 as-is "
+              "models of Context::ln / ln_base / exp, FBig multiplication and div_rem_euclid; work precision regenerated from the source): the inputs that take it, the answer is ONE specification rounding of "
+              "significand * exp(rem) * NB^q, the Euclidean step is exact and its remainder one convert_int rounding; if ln, ln_base and exp err by at most k units in the last place of the work precision, "
+              "|R - V| <= (NB^(1-p)(1+eps)+eps)|V| with eps <= 18 k log2up(NB) NB^(1-2p) for EVERY exponent whenever 16 k log2up(NB) <= NB^(2p-1) (C08_convert_large_route_error_fixed, after the repair F07); "
+              "(7) IEEE import = exact dyadic value of Flocq's binary32/binary64 with precision bit_len(mantissa) (regenerated); (8) with_base's precision as it is (two f32 bounds as dyadic numbers, IEEE "
+              "division to nearest even, truncation): under the log2_bounds contract it is floor(lb/ub), or one more exactly when the division rounded a non-integer quotient up to an integer; NB^p' <= B^p in the "
+              "first case, NB^(p'-1) <= B^p always; it is the maximal precision iff pmax * ub <= lb (C08_with_base_precision_closed); (9) FBig::from_parts_const (what the literal macros expand to): the digit "
+              "loop = number of digits for every DoubleWord significand, non-power-of-two branch = specification (after the repair F09). Every implementation answer of all "
               "APIs in observe_at is decided by the extracted specifications / the contract checker.")
-LEVEL_NOTE = ("Partial: the large-exponent route of convert_base (|e| > 38, ln/exp) is not modelled; its answers are decided case by case by the "
-              "contract checker against the exact rational and it is an OPEN finding (not faithful). The short-dividend route is "
-              "C03's repr_div (theorems repr_div_spec / repr_div_magnitude, instantiated in C08_convert_small_neg); IEEE import is compared against the executable decoder, the "
-              "as-is models of all of them agree with the implementation on every case of the run (model_fidelity). Padding (width/fill/"
-              "alignment/zero flag) is outside the property: the verdict is taken on sign + body, the as-is model reproduces the padding "
-              "including its deviations from core::fmt. Debug output is compared at shape level. Trusted: Coq kernel, translator "
-              "(round_low_part bodies), extraction + FastZ.v, zarith, harness; UBig::from_str_radix / in_radix at their C07 specifications; "
-              "IBig arithmetic is Z (C01/C02).")
-TECHNIQUE = "Coq proof (as-is models of parser, printer, with_precision, convert_base routes = specification; print->parse round trip) + extracted specification and contract checker on a correspondence run"
+LEVEL_NOTE = ("Partial: the ln/exp route of convert_base (|e| > 38) stays an OPEN finding (not faithfully rounded next to rounding boundaries / for representable values); its accuracy theorem is "
+              "conditional on a k-ulp contract of ln / ln_base / exp (C11: certified per case, not proved universally). Its answers are decided case by case by the contract checker against the exact "
+              "rational; a failing answer is a known finding only if it is bit for bit what the as-is model of the route predicts (model evaluated on every case: fidelity 100 %; time budget 3 s, else the "
+              "bound of C08_convert_large_route_error_wp decides). The short-dividend route is C03's repr_div (repr_div_spec / repr_div_magnitude, instantiated in C08_convert_small_neg). Compared, not proved: "
+              "the power-of-two branch of from_parts_const; Debug output (exact text of Float/DebugSpec.v, IBig's Debug at its C07 specification); the f32 operations inside the C11 models (instantiated in "
+              "the oracle with IEEE single arithmetic, log2 = double log2 rounded); soundness of the two log2 bounds with_base divides is C12's contract (decided on every case with C12's bracket test). Trusted: "
+              "Coq kernel, translators (round_low_part bodies; tools/translate_c08_r3.py: THRESHOLD_SMALL_EXP, work precision of the ln/exp route, with_base's formula, precision rules of TryFrom<f32/f64> and "
+              "FromStr), extraction + FastZ.v, zarith, harness; UBig::from_str_radix / in_radix / IBig Debug at their C07 specifications; IBig arithmetic is Z (C01/C02).")
+TECHNIQUE = "Coq proof (as-is models of parser, printer incl. padding, with_precision, every convert_base route, with_base precision, IEEE import, from_parts_const = specification or proved contract; print->parse round trip; regenerated fragments) + extracted specification, as-is models and contract checker on a correspondence run"
 RULE = ("cases = API (FromStr / from_str_native for FBig and Repr; Display, LowerExp, UpperExp, Debug for FBig and Repr with flags + 0 < > ^ "
         "x width x precision option; print-then-parse round trips; with_precision; with_base, with_base_and_precision, to_decimal, "
-        "to_binary; TryFrom<f32/f64> for FBig and Repr) x base {2,3,8,10,16,36} (targets {2,3,10,16}) x six modes x precision "
+        "to_binary; with_base's precision alone (wb_prec: source precisions where NewB^n <= B^p is tight, convergents of log NB / log B, up to 2^14 digits, 2^17 thorough); "
+        "TryFrom<f32/f64> for FBig and Repr; from_parts_const with DoubleWord significands around every power of the base incl. the largest that fits) x base {2,3,8,10,16,36} "
+        "(base changes: 15 source bases x their targets: same, power up/down, common root, multiple, coprime) x six modes x precision "
         "{0 (unlimited),1,2,3,5,10,17,24,53,64,100} x significand digit counts {1,2,p-1,p} incl. all-(B-1) and 10..0 patterns x "
-        "exponents {0, +-1, +-2, -d-1..-d+1, +-37, +-38, +-39 (the small-exponent threshold), +-100, +-1000, +-3000 (10^4 thorough)}; texts: every "
+        "exponents {0, +-1, +-2, -d-1..-d+1, +-37, +-38, +-39 (the small-exponent threshold), +-40, +-77, +-100, +-1000, +-3000 (10^4 thorough)}; texts: every "
         "form of the documented grammar (sign, digits with underscores and leading zeros, point with either side empty, all scale "
         "markers in both cases, hex-float form, signed scales with leading zeros up to the ends of isize) plus a malformed stream (mutations by inserting, "
         "deleting, doubling characters from a set of signs, markers, separators, prefixes, non-ASCII); IEEE bit patterns: zeros, "
         "subnormals, extremes of each class, infinities, NaNs, random. non-trivial = the text was accepted / a rounding or a "
         "conversion was performed / the oracle evaluated the specification on a finite value; distinct = distinct case texts.")
-EXPLANATION = ("Verdicts: parse_spec (grammar read left to right) for texts; display_body_spec / sci_body_spec (layout + spec_round) for "
-               "printed texts modulo padding (layout_ok); with_precision_spec; Contract.check_contract against the exact rational s*B^e for base changes "
+EXPLANATION = ("Verdicts: parse_spec (grammar read left to right) for texts; display_spec / sci_spec = pad_spec around display_body_spec / sci_body_spec (layout + spec_round + padding) for "
+               "printed texts, compared as whole texts; Float/DebugSpec.v for Debug; with_precision_spec; Contract.check_contract against the exact rational s*B^e for base changes "
                "(error < 1 ulp of the target precision, <= 1/2 for nearest modes, side, truthful flag, exact if representable, at "
-               "most p+1 digits) together with the precision rule; ieee_decode for f32/f64. known:convert_base_large_exp_not_faithful only for "
-               "the ln/exp route (bases not powers of one another, |exponent| > 38, limited precision) when the contract fails.")
+               "most p+1 digits) together with the precision rule (maximal or one less; sound bounds by C12's bracket test); from_parts_const_spec; ieee_decode for f32/f64. "
+               "known:convert_base_large_exp_not_faithful only for the ln/exp route (bases not powers of one another, |exponent| > 38, limited precision) when the contract fails AND the answer is "
+               "exactly the one the as-is model of the route predicts (a different failing answer is a violation).")
 TRUSTED_BASE = [
     "Coq 8.16.1 kernel",
-    "tools/translate.py renders the six round_low_part bodies of float/src/round.rs faithfully",
-    "extraction: ExtrOcamlBasic + ExtrOcamlZBigInt + coq/extract/FastZ.v directives; zarith 1.12; oracle/driver_c08.ml",
+    "tools/translate.py renders the six round_low_part bodies of float/src/round.rs faithfully; tools/translate_c08_r3.py renders THRESHOLD_SMALL_EXP, the work precision of the ln/exp route, with_base's formula and the precision rules of TryFrom<f32/f64> / FromStr (float/src/convert.rs, parse.rs) - status in the evidence; tools/translate_c11_r3.py the guard-digit formulas the C11 models read",
+    "extraction: ExtrOcamlBasic + ExtrOcamlZBigInt + coq/extract/FastZ.v directives; zarith 1.12; oracle/driver_c08.ml (f32 operations of the C11 models = IEEE single arithmetic via OCaml doubles, log2 = double log2 rounded to single)",
     "harness/src/bin/c08.rs and hlib (floats moved through raw words; texts as hex bytes)",
-    "UBig::from_str_radix and IBig::in_radix behave as Int/IoSpec.v says (C07); IBig arithmetic is Z (C01, C02)",
-    "core::fmt::Formatter reports width/precision/flags as written in the format string; isize::from_str accepts [+-]?[0-9]+ within range",
+    "UBig::from_str_radix, IBig::in_radix and IBig's Debug behave as Int/IoSpec.v, Int/IoDebugModel.v say (C07); IBig arithmetic is Z (C01, C02); log2_bounds are sound (C12; re-decided per case); the as-is models of Context::ln / exp of Float/ElemAsis.v (C11) transcribe the code (fidelity measured by C11 and, through the route, here)",
+    "core::fmt::Formatter reports width/precision/flags as written in the format string; DebugStruct's pretty printer lays fields out as documented; isize::from_str accepts [+-]?[0-9]+ within range",
 ]
 ASSUMPTIONS = [
     "floats are finite, normalised (Repr::new) and fit their context precision (digits <= p or p = 0), as FBig::from_repr requires",
@@ -429,6 +442,34 @@ def gen_wb_prec(rng, tier):
     return "wb_prec %x %s %x %x" % (b, rng.choice(MODES), nb, p0)
 
 
+def gen_fpc(rng, tier, b):
+    """FBig::from_parts_const: DoubleWord significands around the powers of the base (also the largest one that fits),
+    trailing zero digits, all-ones, zero; min_precision absent / below / at / above the digit count"""
+    k = rng.below(8)
+    top = 1 << 128
+    maxpow = 1
+    while maxpow * b < top:
+        maxpow *= b
+    if k == 0:
+        v = rng.choice([0, 1, b - 1, b, top - 1, top - 2, 1 << 127, 1 << 64, (1 << 64) - 1, 1 << 32, (1 << 32) - 1])
+    elif k == 1:
+        v = min(top - 1, maxpow + rng.choice([-1, 0, 0, 1, 12345]))
+    elif k == 2:
+        v = min(top - 1, maxpow * rng.range(1, max(1, (top - 1) // maxpow)))
+    elif k == 3:
+        d = rng.range(1, 40)
+        v = min(top - 1, b ** min(d, 127) + rng.choice([-1, 0, 1]))
+    elif k == 4:
+        v = min(top - 1, rng.bits(rng.range(1, 100)) * b ** rng.range(1, 5))
+    else:
+        v = rng.bits(rng.choice([8, 32, 33, 64, 65, 127, 128]))
+    v = max(0, v)
+    d = ndigits(v, b)
+    mp = rng.choice(["-", "-", 0, 1, max(0, d - 1), d, d + 1, 60])
+    e = rng.choice([0, 0, 1, -1, -5, 7, 100, -100])
+    return "fpc %x %s %s %s %s" % (b, rng.choice(MODES), hx(-v if rng.chance(1, 2) else v), hx(e), mp if mp == "-" else "%x" % mp)
+
+
 def gen_ieee(rng, tier):
     if rng.chance(1, 2):
         mw, ew, op = 23, 8, rng.choice(["from_f32", "from_f32", "from_f32_repr"])
@@ -478,8 +519,10 @@ def gen_cases(rng, tier, n):
             c = gen_misc(rng, tier, b)
         elif k < 90:
             c = gen_conv(rng, tier, b)
-        elif k < 94:
+        elif k < 92:
             c = gen_wb_prec(rng, tier)
+        elif k < 94:
+            c = gen_fpc(rng, tier, b)
         else:
             c = gen_ieee(rng, tier)
         if valid(c):
